@@ -62,7 +62,7 @@ def abstract_decay(ex: Ex, tt, nn, l_none: bool) -> Rec:
     ex.sv_class[str(pname(p))] = str
 
     def state(idt, part=None):
-        return Rec("StateWithID", {"id": SV(idt, "obj"), **({"particle": part} if part is not None else {})})
+        return Rec("StateWithID", {"id": SV(idt, "obj"), **({"particle": part} if part is not None else {})}, getattr(D, "StateWithID", None))
 
     inter = Rec("InteractionProperties", {"l_magnitude": None if l_none else SV(l_of(tt, nn), "int"), "s_magnitude": SV(s_of(tt, nn), "int")})
     return Rec("TwoBodyDecay", {"parent": state(parent_id(tt, nn), particle), "children": (state(child_id[0](tt, nn)), state(child_id[1](tt, nn))), "interaction": inter, "__obj__": d},
@@ -195,8 +195,12 @@ def assign_by_name(chk: Check, kind: str, k: int) -> int:
     names = [z3.Const(f"parent_name{i}", Obj) for i in range(k)]
     latex = [z3.Const(f"parent_latex{i}", Obj) for i in range(k)]
     olds = [z3.Const(f"old_choice{i}", Obj) for i in range(k)]
-    decays = [Rec("TwoBodyDecay", {"parent": Rec("StateWithID", {"particle": Rec("Particle", {"name": SV(names[i], "obj"), "latex": SV(latex[i], "obj")})}),
-                                   "__obj__": z3.Const(f"decay{i}", Obj)}) for i in range(k)]
+    from ampform.helicity import decay as D_
+
+    # real classes attached: a property/helper of TwoBodyDecay used by the code under contract is interpreted from its source
+    decays = [Rec("TwoBodyDecay", {"parent": Rec("StateWithID", {"particle": Rec("Particle", {"name": SV(names[i], "obj"), "latex": SV(latex[i], "obj")})},
+                                                 getattr(D_, "StateWithID", None)),
+                                   "__obj__": z3.Const(f"decay{i}", Obj)}, getattr(D_, "TwoBodyDecay", None)) for i in range(k)]
     keys = [_HK(d) for d in decays]
     self_rec = Rec("DynamicsSelector", {"_DynamicsSelector__choices": {keys[i]: SV(olds[i], "obj") for i in range(k)}}, real_class=H.DynamicsSelector)
     sel_name, sel_latex = z3.Const("selection_name", Obj), z3.Const("selection_latex", Obj)
@@ -455,7 +459,8 @@ def formulate_dynamics(chk: Check, max_params: int) -> int:
             tr, node, t, n = _abstract_transition()
             selector, has, val = _smap_self()
             pd_has, pd_val = z3.Array("defaults_has", Obj, B), z3.Array("defaults_val", Obj, Obj)
-            ingredients = Rec("_HelicityModelIngredients", {"parameter_defaults": Rec("dict", {"__map__": SMap(pd_has, pd_val)})})
+            ingredients = Rec("_HelicityModelIngredients", {"parameter_defaults": Rec("dict", {"__map__": SMap(pd_has, pd_val)})},
+                              getattr(H, "_HelicityModelIngredients", None))
             self_rec = Rec("HelicityAmplitudeBuilder", {"_HelicityAmplitudeBuilder__dynamics": selector, "_HelicityAmplitudeBuilder__ingredients": ingredients}, real_class=H.HelicityAmplitudeBuilder)
 
             def sv_call(e, st_, f, args, kwargs, j=j):
